@@ -1,4 +1,5 @@
 import SJ.Proofs.MachineApTop
+import SJ.Proofs.MachineApCst
 import SJ.Props.C01Iff
 /-!
 # C01 / C02 under `arbitrary_precision`: the private Number token, as theorems about the faithful model
@@ -25,7 +26,7 @@ on such objects (open findings `C01-ap-private-number-token`, `C02-ap-…`, `C04
 namespace SJ.Props.C01Ap
 open SJ SJ.Gen SJ.Model.Machine SJ.Spec.Grammar SJ.Proofs.CanonM
 open SJ.Spec.Denote (decodeItems)
-open SJ.Spec.PrivateToken (hasTokenFirstKey TokenTail)
+open SJ.Spec.PrivateToken (hasTokenFirstKey TokenTail tokenFree)
 open SJ.Model.MachineAp (ofMachine fromStr)
 
 /-- the parser model for a configuration: `MachineAp` (which is the machine unless `arbitrary_precision` + `Value`) -/
@@ -48,6 +49,25 @@ example : hasTokenFirstKey
     [0x7b, 0x22, 0x5c, 0x75, 0x30, 0x30, 0x32, 0x34, 0x73, 0x65, 0x72, 0x64, 0x65, 0x5f, 0x6a, 0x73, 0x6f, 0x6e, 0x3a, 0x3a,
      0x70, 0x72, 0x69, 0x76, 0x61, 0x74, 0x65, 0x3a, 0x3a, 0x4e, 0x75, 0x6d, 0x62, 0x65, 0x72, 0x22, 0x3a, 0x22, 0x31, 0x22, 0x7d]
     = true := by decide +kernel
+
+/-- the same hypothesis on the syntax tree: a JSON text none of whose objects has a first key decoding to the token
+    (`Spec.PrivateToken.tokenFree`, decidable on the tree) has no hit in the scan -/
+theorem c01_ap_conservative_cst (env : Env) (bs : Bytes) (t : CST) (h : JsonText bs t) (htf : tokenFree t = true) :
+    parseAp env bs = ofMachine (parseTop env bs) :=
+  c01_ap_conservative env bs (SJ.Proofs.MachineAp.scan_of_tokenFree bs t h htf)
+
+/-- … hence C01's completeness half for the faithful model: a JSON text meeting the side conditions and without token
+    first keys is accepted with the value it denotes -/
+theorem c01_ap_complete_tokenfree (env : Env) (henv : env.tgt = .value) (bs : Bytes) (t : CST) (h : JsonText bs t)
+    (hdepth : env.cfg.limitOff = true ∨ depth t ≤ 127) (hsur : surrogatesPaired t = true)
+    (hutf : env.src ≠ .str → Spec.Canon.stringsUtf8 t = true)
+    (hnum : Spec.Canon.numbersInRange (specCfg env.cfg) t = true) (htf : tokenFree t = true) :
+    ∃ v, parseAp env bs = .ok v ∧ canonM env.cfg t = some v := by
+  obtain ⟨v, hp, hc⟩ := SJ.Props.C01.c01_complete_value env henv bs t h hdepth hsur hutf hnum
+  exact ⟨v, by rw [c01_ap_conservative_cst env bs t h htf, hp]; rfl, hc⟩
+
+/-- `[{"a":"$serde_json::private::Number"}]`: the token as a VALUE is nothing special -/
+example : tokenFree (.arr [.obj [([.raw 0x61], .str (Gen.numberToken.map .raw))]]) = true := by decide +kernel
 
 /-- **C01 on token-free inputs**: `c01_accepts_iff` verbatim for the faithful model -/
 theorem c01_ap_accepts_iff_tokenfree (env : Env) (henv : env.tgt = .value) (bs : Bytes) (h : hasTokenFirstKey bs = false) :
